@@ -493,8 +493,46 @@ def is_inverting(cr, self_ty, rep):
     return False, ''
 
 
+def check_ord_agreement(cr, rep):
+    """L10.O: a type with hand-written PartialOrd::partial_cmp and Ord::cmp orders its operands the same way in both (either both
+    delegate (self, other) or both the reversed (other, self)): tuple / OrdLattice lattices use Ord, Dual's Lattice impl PartialOrd."""
+    def direction(b, meth_suffix):
+        ps = [p.get('id') for p in b['params']]
+        for x, _ in walk(b['tree']):
+            c = callee(x)
+            if c and cname(c).endswith(meth_suffix) and x['k'] == 'mcall' and x['a']:
+                r, a = root_local(x['r']), root_local(x['a'][0])
+                if r and a and len(ps) == 2:
+                    if r['id'] == ps[0] and a['id'] == ps[1]:
+                        return 'self,other'
+                    if r['id'] == ps[1] and a['id'] == ps[0]:
+                        return 'other,self'
+        return None
+    by_ty = {}
+    for b in cr.bodies.values():
+        tr = b.get('trait_of') or ''
+        if b['name'] == 'partial_cmp' and tr.endswith('cmp::PartialOrd'):
+            by_ty.setdefault(impl_self_ty(b), {})['partial_cmp'] = (b, direction(b, 'PartialOrd::partial_cmp'))
+        if b['name'] == 'cmp' and tr.endswith('cmp::Ord'):
+            by_ty.setdefault(impl_self_ty(b), {})['cmp'] = (b, direction(b, 'Ord::cmp'))
+    n = 0
+    for ty, d in sorted(by_ty.items()):
+        if 'cmp' in d and 'partial_cmp' in d and d['cmp'][1] and d['partial_cmp'][1]:
+            n += 1
+            ok = d['cmp'][1] == d['partial_cmp'][1]
+            rep.inst('L10.O', '%s: partial_cmp compares (%s), cmp compares (%s): %s' % (ty, d['partial_cmp'][1], d['cmp'][1], ok))
+            if not ok:
+                rep.viol('L10.O', d['cmp'][0]['path'], 'ord-disagrees-with-partialord',
+                         'Ord::cmp of `%s` compares (%s) but PartialOrd::partial_cmp compares (%s): lattices built on Ord (tuples, OrdLattice) '
+                         'and on PartialOrd see opposite orders' % (ty, d['cmp'][1], d['partial_cmp'][1]))
+    return n
+
+
 def check_L10(ctx, rep):
     cr = ctx.lib('ascent_base')
+    if check_ord_agreement(cr, rep) < 1:
+        from core import Broken
+        raise Broken('no type with hand-written partial_cmp and cmp found (Dual expected)')
     lat_bodies = [b for b in cr.bodies.values() if (b.get('trait_of') or '').endswith('lattice::Lattice')]
     bl_bodies = [b for b in cr.bodies.values() if (b.get('trait_of') or '').endswith('lattice::BoundedLattice')]
     impls = sorted({b['impl_of'] for b in lat_bodies if b.get('impl_of')})
